@@ -3,6 +3,7 @@ package main
 import (
 	"fmt"
 	"go/types"
+	"strings"
 )
 
 // Heap is a persistent map from heap key to the SMT term of its current version.
@@ -70,6 +71,12 @@ func (x *Enc) havocAll(h Heap, reach Term) Heap {
 	x.nfresh++
 	nh := Heap{base: fmt.Sprintf("%s_hv%d", h.base, x.nfresh), m: map[string]Term{}}
 	x.sc.assert(app(">=", x.hget(nh, keyAlloc), oldAlloc))
+	// ghost call counters are not program state: a havoc does not touch them
+	for _, k := range sortedKeys(x.keys) {
+		if strings.HasPrefix(k, "$cnt:") || strings.HasPrefix(k, "$arg:") || strings.HasPrefix(k, "$res:") {
+			nh.m[k] = x.hget(h, k)
+		}
+	}
 	// frame: local (non-escaping) allocations keep their contents
 	for _, la := range x.localAllocs {
 		for _, k := range la.keys {
